@@ -3246,6 +3246,34 @@ impl Gen {
         if mf.is_empty() || !self.allow_load {
             return;
         }
+        // adjacent (or empty) character items in MIXED content are written as one run and read back as one item: the document then
+        // differs from the model in content, unkeyed siblings (two L-2 of one DESC) sort differently on the two sides and are merged
+        // by position (known finding c09:unkeyed-sibling-positional-merge) - not what this operation is after (false alarm F15)
+        {
+            let root = self.ck.w.models[0].root_element();
+            let split_text = root.elements_dfs().any(|(_, e)| {
+                if e.content_type() != ContentType::Mixed {
+                    return false;
+                }
+                let mut prev_text = false;
+                for c in e.content() {
+                    match c {
+                        ElementContent::CharacterData(cd) => {
+                            if prev_text || cd.string_value().is_some_and(|t| t.is_empty()) {
+                                return true;
+                            }
+                            prev_text = true;
+                        }
+                        ElementContent::Element(_) => prev_text = false,
+                    }
+                }
+                false
+            });
+            if split_text {
+                *self.stats.entry("load.skipped_split_text".to_string()).or_insert(0) += 1;
+                return;
+            }
+        }
         // both sides in canonical order: the positional merge of load_buffer duplicates shared elements when sibling kinds
         // interleave differently (known finding c09:out-of-order-sibling-duplicated), which is not what this operation is after
         let presort = true;
@@ -3335,6 +3363,19 @@ impl Gen {
                     .replace(&format!("/{n}/"), &format!("/{bad}/"))
                     .replace(&format!("/{n}<"), &format!("/{bad}<"));
                 strict = false;
+                // the document was sorted BEFORE the name changed: sort it again with the new name (a lenient load accepts it), so
+                // that both sides of the merge list their siblings in one order (otherwise the merge duplicates shared elements:
+                // known finding c09:out-of-order-sibling-duplicated, not what this operation is after - false alarm F15)
+                let resorted = catch_unwind(AssertUnwindSafe(|| -> Option<String> {
+                    let tmp2 = AutosarModel::new();
+                    let (f2, _) = tmp2.load_buffer(text.as_bytes(), "t2.arxml", false).ok()?;
+                    tmp2.sort();
+                    f2.serialize().ok()
+                }));
+                match resorted {
+                    Ok(Some(t)) => text = t,
+                    _ => return,
+                }
                 *self.stats.entry("load.bad_name".to_string()).or_insert(0) += 1;
             }
         }
